@@ -1194,6 +1194,30 @@ def _fold_consts(st):
     """fold what substituting a table row made constant: 'a' + 'b',
     'x' == 'y', `if <constant>:`;  -> statement, list of statements or None"""
     class F(ast.NodeTransformer):
+        def visit_Call(self, n):
+            n = self.generic_visit(n)
+            # bytes('text', 'ascii') -> b'text'
+            if isinstance(n.func, ast.Name) and n.func.id == 'bytes' and \
+                    len(n.args) == 2 and not n.keywords and \
+                    isinstance(n.args[0], ast.Constant) and \
+                    isinstance(n.args[0].value, str) and \
+                    isinstance(n.args[1], ast.Constant) and \
+                    isinstance(n.args[1].value, str):
+                try:
+                    return ast.copy_location(ast.Constant(
+                        value=n.args[0].value.encode(n.args[1].value)), n)
+                except Exception:
+                    return n
+            # getattr(x, 'name') -> x.name
+            if isinstance(n.func, ast.Name) and n.func.id == 'getattr' and \
+                    len(n.args) == 2 and not n.keywords and \
+                    isinstance(n.args[1], ast.Constant) and \
+                    isinstance(n.args[1].value, str) and \
+                    n.args[1].value.isidentifier():
+                return ast.copy_location(ast.Attribute(
+                    value=n.args[0], attr=n.args[1].value, ctx=ast.Load()), n)
+            return n
+
         def visit_BinOp(self, n):
             n = self.generic_visit(n)
             if isinstance(n.op, ast.Add) and \
@@ -1203,6 +1227,25 @@ def _fold_consts(st):
                     isinstance(n.left.value, (str, bytes)):
                 return ast.copy_location(
                     ast.Constant(value=n.left.value + n.right.value), n)
+            # 'text %s' % 'x'  /  % ('x', 'y')
+            if isinstance(n.op, ast.Mod) and \
+                    isinstance(n.left, ast.Constant) and \
+                    isinstance(n.left.value, (str, bytes)):
+                args = None
+                if isinstance(n.right, ast.Constant) and \
+                        isinstance(n.right.value, (str, bytes, int)):
+                    args = n.right.value
+                elif isinstance(n.right, ast.Tuple) and all(
+                        isinstance(x, ast.Constant) and
+                        isinstance(x.value, (str, bytes, int))
+                        for x in n.right.elts):
+                    args = tuple(x.value for x in n.right.elts)
+                if args is not None:
+                    try:
+                        return ast.copy_location(
+                            ast.Constant(value=n.left.value % args), n)
+                    except Exception:
+                        return n
             return n
 
         def visit_Compare(self, n):
